@@ -277,6 +277,22 @@ def mutate(rng, text):
 
 def gen_case(rng, ctx):
     kind = rng.choice(["roundtrip", "roundtrip", "file", "random", "mutated", "mutated"])
+    if kind == "mutated" and rng.random() < 0.25:
+        # a well-formed text that names an element twice: in two different buckets (after large or small tied groups) or
+        # twice in one bucket -- refused with ValueError or parsed, never anything else
+        n = rng.randint(2, 9)
+        names = rng.sample(range(0, 500), n) if rng.random() < 0.5 else [f"{c}{i}" for i, c in enumerate(rng.sample("abcdefghxyz", n))]
+        r = gen.ranking_over(rng, names, rng.choice([0.3, 0.6, 0.8]))
+        if rng.random() < 0.5 and len(r) >= 1:
+            # ties first: the repeated element comes after a large bucket
+            r.sort(key=len, reverse=True)
+        src = rng.randrange(len(r))
+        dst = rng.randrange(len(r)) if rng.random() < 0.8 else len(r)
+        if dst == len(r):
+            r.append([])
+        r[dst] = list(r[dst]) + [rng.choice(r[src])]
+        ctx.count("texts_naming_an_element_twice")
+        return {"kind": "mutated", "text": rng.choice(["", "", "r: "]) + text_of(r, rng.choice(["brace", "bracket"]), rng)}
     if kind == "roundtrip":
         r = gen_ranking(rng)
         style = rng.choice(["brace", "bracket", "str"])
@@ -520,6 +536,7 @@ def reach(counters, tier, info):
                              "file_round_trips_with_empty_ranking", 100 * k),
                             ("damaged texts of 26-60 buckets parsed by a separate interpreter under a wall-clock bound", "long_damaged_texts", 8 * 24 if tier == "quick" else 14 * 24),
                             ("... rejected with ValueError", "long_damaged_texts:ValueError", 60),
+                            ("well-formed texts naming an element twice", "texts_naming_an_element_twice", 500 * k),
                             ("texts parsed", "parsed", 1000 * k), ("texts rejected with ValueError", "rejected", 3000 * k)] + \
             ([("atheris executions", "atheris_executions", 500000)] if tier == "thorough" else []):
         v = counters.get(key, 0)
